@@ -180,6 +180,21 @@ def check_generator(job):
         atco.convert_rad2orb_(o, yy.copy(), gi, gi.rad_arr, rad2orb=False, offset=0)
         return o
     test_scaled("rad_orb", fa2, fb2, x, y)
+    # the orbital-side array may be WIDER than the block that is converted (stride > nalpha) and the block may start at an
+    # offset, also at offset 0 (the on-site interpolation converts the l=0 block of an array that also holds the l=1 blocks)
+    for stride, off in ((nalpha + 3, 0), (nalpha + 3, 2), (2 * nalpha, nalpha)):
+        yw = rng.normal(size=(atco.nao, stride))
+        axw = np.zeros((atco.nao, stride))
+        atco.convert_rad2orb_(x.copy(), axw, gi, gi.rad_arr, rad2orb=True, offset=off)
+        byw = np.zeros_like(x)
+        atco.convert_rad2orb_(byw, yw.copy(), gi, gi.rad_arr, rad2orb=False, offset=off)
+        test("rad_orb:stride=wider,offset=%s" % ("0" if off == 0 else "positive"), axw[:, off:off + nalpha], yw[:, off:off + nalpha], x, byw)
+        outside = np.delete(axw, np.s_[off:off + nalpha], axis=1)
+        n += 1
+        if np.abs(outside).max(initial=0.0) != 0.0 or np.abs(axw[:, off:off + nalpha] - ax).max() > 1e-12 * (1 + np.abs(ax).max()):
+            viol.append({"site": "rad_orb:wider-array:%s" % (tag.split(":")[0] + ":" + job["interp"]),
+                         "detail": {"job": job, "stride": stride, "offset": off, "written_outside_the_block": float(np.abs(outside).max(initial=0.0)),
+                                    "block_differs_from_dense_call": float(np.abs(axw[:, off:off + nalpha] - ax).max())}})
     # ---- S3 interpolation-coefficient transforms
     for i in range(-1, nl.num_feat_param_sets if job["ver"] != "i" else 0):
         x = rng.normal(size=(7, nalpha))
